@@ -221,6 +221,49 @@ def junction_stream(ctx):
             ctx.oracle_failure(info, fails, {})
 
 
+def decimal_delta_stream(ctx):
+    """Heights, merger levels and min_delta written with one or two decimals (what a user types): the differences land
+    on rounding boundaries.  The criterion is the leaf's height above its parent's height, one double subtraction:
+    after prune(min_delta=d) every leaf with a parent meets it, and when every leaf already met it nothing changes."""
+    from astrodendro import Dendrogram
+    rng = ctx.rng('c07-decimal')
+    for it in range(400 if ctx.quick else 4000):
+        q = rng.choice([10, 100])
+        n = rng.randint(4, 9)
+        # peaks separated by saddles; every saddle value is repeated so that the parent's height is the joining value
+        vals = []
+        for k in range(n):
+            vals += [rng.randint(q, 9 * q) / q]
+            if k < n - 1:
+                sv = rng.randint(1, q) / q
+                vals += [sv, sv]
+        delta = rng.randint(1, 4 * q) / q
+        arr = np.array(vals, dtype=float)
+        info = {'stream': 'decimal min_delta', 'data': vals, 'min_delta': delta}
+        try:
+            d = Dendrogram.compute(arr.copy(), min_value=0)
+            shape = (len(vals),)
+            met = all(float(s.height) - float(s.parent.height) >= delta for s in d.leaves if s.parent is not None)
+            before = impl.impl_hierarchy(d, shape)
+            d.prune(min_delta=delta)
+            after = impl.impl_hierarchy(d, shape)
+            bad = [(int(s.idx), float(s.height), float(s.parent.height)) for s in d.leaves
+                   if s.parent is not None and not (float(s.height) - float(s.parent.height) >= delta)]
+        except Exception as e:
+            ctx.oracle_failure(info, ['raised %r' % (e,)], {})
+            continue
+        ctx.count('decimal_delta_cases')
+        ctx.count('decimal_delta_all_met=%s' % met)
+        ctx.case_done(None, ('decimal', tuple(vals), delta))
+        fails = []
+        if bad:
+            fails.append('after prune(min_delta=%r) leaves (id, height, parent height) %s stand less than that above their parent' % (delta, bad[:3]))
+        if met and before != after:
+            fails.append('every leaf already stood min_delta=%r above its parent, yet prune changed the tree: %s -> %s' % (delta, before, after))
+        if fails:
+            ctx.oracle_failure(info, fails, {})
+
+
 def float32_sum_stream(ctx):
     """min_sum on single-precision data: one pixel of 2**24 and a few small ones, the threshold next to their exact sum.
     After prune(is_independent=min_sum(T)) every leaf must really sum to at least T, and the result must be what
@@ -284,6 +327,7 @@ def trunk_order_stream(ctx):
 
 def explore(ctx):
     trunk_order_stream(ctx)
+    decimal_delta_stream(ctx)
     float32_sum_stream(ctx)
     junction_stream(ctx)
     level_criterion_stream(ctx)
